@@ -30,10 +30,11 @@ def gen_cases(tier, seed):
     entries = ["ad", "ad_nosr", "ad_norot", "ad_nosr_norot"]
     for entry in entries:
         for wt in ("rhf", "uhf"):
-            for rep in range((2 if entry in ("ad", "ad_norot") else 1) if q else 4):
+            for rep in range(2 if q else 4):
                 single = bool(rep % 2 == 0)
                 # multi-block shapes always contain an in-block reconfiguration that later energy blocks depend on (n_sr_blocks >= 2)
-                shape = [int(rng.integers(2, 5)), 1 if single else int(rng.integers(1, 3)), 1 if single else int(rng.integers(2, 4))]
+                shape = [int(rng.integers(2, 5)), 1 if single else int(rng.integers(2, 4) if "nosr" in entry else rng.integers(1, 3)), 1 if single else int(rng.integers(2, 4))]
+                # (the entry points without reconfiguration scan over the energy blocks only: their multi-block shapes have >= 2 energy blocks)
                 cases.append({"type": "deriv", "entry": entry, "wt": wt, "shape": shape, "dt": float(rng.choice([0.01, 0.03])),
                               "s": int(rng.integers(1 << 30)), "group": "d-%s-%s-%d" % (entry, wt, rep), "cost": 60})
     for wt in (("uhf",) if q else ("rhf", "uhf")):
